@@ -1,4 +1,5 @@
 import RedoModel.Lemmas.Deps
+import RedoModel.Props.C03b
 /-!
 # C03 — Checksum cut-off: redo-stamp stops and forwards change exactly
 Property theorems only.  Model: `RedoModel/Deps.lean`.
